@@ -26,7 +26,7 @@ func (t *Translator) CountTokens(ctx context.Context, r *http.Request) (*transla
 	// detect oversized requests
 	if int64(len(body)) > t.maxMessageSize {
 		_ = r.Body.Close()
-		return nil, fmt.Errorf("request body exceeds maximum size of %d bytes", t.maxMessageSize)
+		return nil, fmt.Errorf("%w: request body exceeds maximum size of %d bytes", translator.ErrRequestTooLarge, t.maxMessageSize)
 	}
 
 	// reset body for downstream handlers to re-read
